@@ -281,17 +281,46 @@ def run(ctx):
             elif argi == 0 and callee_name(c) in ("to_vec", "to_owned") and "&[u8]" in dec.locals[cur]["ty"]:
                 # the unread remainder of a slice reader, copied: what read_to_end delivers
                 reads.append(("read_to_end", b, dev.call_args(b)))
+    # length fields taken off the front of the blob without the reader: `u16::from_le_bytes(blob[0..2])`, `blob[2..4]` (however the two
+    # chunks were split off), with the reader then started on blob[4..]: the same two little-endian u16 reads
+    std_len = {}
+    if [x[0] for x in reads][:2] != ["read_u16", "read_u16"]:
+        from lib import le_u32_source
+        blobp = ("param", DEC, 2)
+        pre = []
+        for bb, t in dec.calls():
+            pth = t["fn"].get("path", "")
+            if callee_name(pth) in ("from_le_bytes", "from_be_bytes", "from_ne_bytes") and "u16" in pth:
+                src = le_u32_source(W, dev.call_term(bb))
+                if isinstance(src, tuple) and src and src[0] == "index" and src[1] == blobp and src[2][0] == "agg" and str(src[2][1]).endswith("Range::Range"):
+                    rng = tuple(x[1] if x[0] == "int" else None for x in src[2][2])
+                    pre.append((rng, bb, callee_name(pth)))
+        pre.sort()
+        started_at = None
+        if cur is not None:
+            ci = [v for (b_, v) in dev.obj_init(cur)]
+            c0 = W.expand(ci[0]) if len(ci) == 1 else None
+            if is_call(c0) and callee_name(c0[1]) == "new" and c0[2]:
+                c0 = W.expand(c0[2][0])
+            if isinstance(c0, tuple) and c0 and c0[0] == "index" and c0[1] == blobp and c0[2][0] == "agg" and str(c0[2][1]).endswith("RangeFrom::RangeFrom") and c0[2][2][0][0] == "int":
+                started_at = c0[2][2][0][1]
+        if [x[0] for x in pre] == [(0, 2), (2, 4)] and started_at == 4:
+            for (rng, bb, nm) in pre:
+                std_len[bb] = nm
+            reads = [("read_u16", pre[0][1], dev.call_args(pre[0][1])), ("read_u16", pre[1][1], dev.call_args(pre[1][1]))] + reads
     rk = [x[0] for x in reads]
     ctx.check("agreement", "read-order", rk == ["read_u16", "read_u16", "read_exact", "read_exact", "read_to_end"], "decrypt reads u16, u16, wrapped DEK, nonce, rest",
               "decrypt reads %s" % rk, ctx.loc(dec))
+    for bb_, nm_ in sorted(std_len.items()):
+        ctx.check("agreement", "decrypt_seed/length-field-little-endian@%d" % bb_, nm_ == "from_le_bytes", "u16::from_le_bytes", "length field decoded with %s" % nm_, dec.loc(bb_))
     if rk[:4] == ["read_u16", "read_u16", "read_exact", "read_exact"]:
-        dl = ("vfield", dev.call_term(reads[0][1]), "Continue", 0)
+        dl = ("vfield", dev.call_term(reads[0][1]), "Continue", 0) if reads[0][1] not in std_len else dev.call_term(reads[0][1])
         b1 = reads[2][2][1]
         init = W.obj_init(b1) if b1[0] == "obj" else None
         okd = (is_call(init, "vec_zero_filled") and uncast(init[2][0]) == dl) or \
             (is_call(init) and callee_name(init[1]) == "from_elem" and len(init[2]) == 2 and init[2][0] == ("int", 0) and uncast(init[2][1]) == dl)
         ctx.check("agreement", "wrapped-dek-length-from-first-field", okd, "the wrapped DEK is read with the first length field", "wrapped DEK buffer is %s" % fmt(init), dec.loc(reads[2][1]))
-        nl = ("vfield", dev.call_term(reads[1][1]), "Continue", 0)
+        nl = ("vfield", dev.call_term(reads[1][1]), "Continue", 0) if reads[1][1] not in std_len else dev.call_term(reads[1][1])
         b2 = reads[3][2][1]
         n_arr = array_len(dec.locals[b2[2]]["ty"]) if b2[0] == "obj" else None
         rels = flow.rel_facts_at(DIN, reads[3][1])
